@@ -66,6 +66,20 @@ def gen_actor(rng, aid, ntrees, others):
                                            'from_stream']),
                         'stream': rng.choice(LOAD_STREAMS)})
 
+    if rng.chance(0.08):
+        # a parsed tree with changes that hold no files (metadata only),
+        # one of which then gets a file
+        tn = names[0]
+        ops.append({'op': 'parse', 'tree': tn, 'hex': (
+            b'#diffx: encoding=utf-8, version=1.0\n#.change:\n'
+            b'#..meta: format=json, length=9\n{"k": 1}\n#.change:\n'
+            b'#..meta: format=json, length=9\n{"k": 2}\n#.change:\n'
+            b'#..preamble: length=2\nx\n').hex(),
+            'via': rng.choice(['shared_reader', 'from_bytes',
+                               'from_stream'])})
+        ops.append({'op': 'add_file', 'tree': tn, 'change': rng.below(3),
+                    'attrs': {'meta': {'p': 1}}})
+
     if rng.chance(0.4):
         # several sections carrying the *same* metadata value (each handed
         # over as its own deep copy): a parse of such a tree must still give
